@@ -260,6 +260,17 @@ func hookUnits(res *common.Result, each func(Scenario, int) bool) bool {
 							if each(sc, bound(n)) {
 								return true
 							}
+							if twoCtx && upFail == 0 {
+								// every used context is shut down, also when a down command fails
+								sc2 := sc
+								sc2.Ctxs = append([]CtxCfg{}, sc.Ctxs...)
+								for i := range sc2.Ctxs {
+									sc2.Ctxs[i].DownFail = true
+								}
+								if each(sc2, bound(n)) {
+									return true
+								}
+							}
 						}
 					}
 				}
